@@ -222,10 +222,7 @@ Theorem select_default_only_if_none_ready_refuted :
     progs = [[XTrySelect [CRecv 0; CSend 0 12%N]]; [XPlain 0 (OSend 13%N)]] /\ caps = [1]%nat /\
     map xout (xths s) = [[XDefault]; [XR (RSend true)]] /\
     map xchan_obs (xchs s) = [(0, 1, 0, 0, false, 0)]%nat.
-Proof.
-  exists [1]%nat, [[XTrySelect [CRecv 0; CSend 0 12%N]]; [XPlain 0 (OSend 13%N)]], [0;1;1;0]%nat.
-  split; [reflexivity|]. split; [reflexivity|]. exact w_default.
-Qed.
+Proof. exact w_default_ex. Qed.
 Print Assumptions select_default_only_if_none_ready_refuted.
 
 (* no stuck pair is FALSE with select on unbuffered channels.  (1) two selects that
@@ -237,11 +234,7 @@ Theorem select_no_stuck_pair_refuted :
     progs = [[XSelect [CRecv 0; CSend 0 11%N]]; [XSelect [CSend 0 12%N; CRecv 0]]] /\
     (forall th, In th (xths s) -> x_enabled th = false) /\
     map xtpc (xths s) = [SWaitW; SWaitW] /\ map xout (xths s) = [[]; []].
-Proof.
-  exists [0]%nat, [[XSelect [CRecv 0; CSend 0 11%N]]; [XSelect [CSend 0 12%N; CRecv 0]]],
-    [0;0;0;0;0;0;0;0;1;0;0;0;0;1;1;1;1;1;1;1]%nat.
-  split; [reflexivity|]. exact w_mirrored.
-Qed.
+Proof. exact w_mirrored_ex. Qed.
 Print Assumptions select_no_stuck_pair_refuted.
 
 (* (2) a blocking select armed the hand-off flag of channel 1 for a counted select-sender
@@ -252,11 +245,7 @@ Theorem select_partner_both_blocked_refuted :
     (forall th, In th (xths s) -> x_enabled th = false) /\
     (exists th, nth_error (xths s) 0 = Some th /\ xprog th = [XSelect [CRecv 0; CRecv 1]] /\ xtpc th = STry2W 1) /\
     (exists th, nth_error (xths s) 2 = Some th /\ xprog th = [XPlain 0 (OSend 12%N)] /\ xtpc th = XSendW).
-Proof.
-  exists [0;0]%nat, [[XSelect [CRecv 0; CRecv 1]]; [XPlain 1 ORecv]; [XSelect [CSend 1 11%N; CRecv 0]; XPlain 0 (OSend 12%N)]],
-    [0;1;2;2;1;0;2;0;0;2;1;0;0;2;0;2;0;2;0;2]%nat.
-  exact w_stuck_pair.
-Qed.
+Proof. exact w_stuck_pair_ex. Qed.
 Print Assumptions select_partner_both_blocked_refuted.
 
 (* a select with default can block for ever: it armed the hand-off flag for a registered
@@ -266,9 +255,5 @@ Theorem tryselect_never_blocks_refuted :
     (forall th, In th (xths s) -> x_enabled th = false) /\
     exists th, nth_error (xths s) 1 = Some th /\ xprog th = [XTrySelect [CRecv 0; CSend 0 14%N]] /\
                xtpc th = TTry2W 0 /\ xpark th = Some (OnChan 0) /\ xslots th = [0%N; 0%N].
-Proof.
-  exists [0;0]%nat, [[XSelect [CSend 1 11%N; CSend 0 12%N]; XPlain 1 (OSend 13%N)]; [XTrySelect [CRecv 0; CSend 0 14%N]]; [XPlain 0 ORecv]],
-    [0;2;2;0;0;0;2;0;1;1;0;0;0;1]%nat.
-  exact w_tryselect_blocks.
-Qed.
+Proof. exact w_tryselect_blocks_ex. Qed.
 Print Assumptions tryselect_never_blocks_refuted.
